@@ -1,16 +1,19 @@
 #!/bin/bash
 # framework/seedtest.sh [ids...]: apply each seeded change to a scratch worktree of /repo and run every check against it
-# (informational; never part of a registered check).  Results -> build/seedtest/<id>.txt and a summary line each.
-W=${SEED_WT:-/var/tmp/w/fix}
-cd "$W" && git checkout -q -- . && git clean -qfd src tests >/dev/null
-mkdir -p /verif/build/seedtest
-ids="$@"; [ -z "$ids" ] && ids=$(ls /verif/seeded)
+# (informational; never part of a registered check).  Runs from whatever copy of /verif it lives in (works under `vp run`).
+V=$(cd "$(dirname "$0")/.." && pwd)
+W=${SEED_WT:-/var/tmp/w/seedwt}
+if [ ! -d "$W" ]; then git -C /repo worktree add --detach "$W" HEAD >/dev/null 2>&1; fi
+cd "$W" && git checkout -q -- . && git checkout -q --detach main 2>/dev/null; git clean -qfd src tests >/dev/null
+mkdir -p "$V/build/seedtest"
+ids="$@"; [ -z "$ids" ] && ids=$(ls "$V/seeded")
 for id in $ids; do
-  cd "$W" && git checkout -q -- . && git apply /verif/seeded/$id/patch.diff || { echo "$id PATCH-FAILED"; continue; }
-  out=/verif/build/seedtest/$id.txt
-  (cd /verif && VP_REPO=$W VERIF_BUILD=/verif/build/seedbuild VERIF_VACUITY=0 python3 framework/check.py all > $out 2>&1)
-  viol=$(grep -o "VIOLATION property=C[0-9]*" $out | sort -u | sed 's/VIOLATION property=//' | tr '\n' ' ')
-  und=$(grep -o "^UNDECIDED[ :A-Z0-9]*" $out | sort -u | head -3 | tr '\n' ' ')
+  cd "$W" && git checkout -q -- . && git apply "$V/seeded/$id/patch.diff" || { echo "$id PATCH-FAILED"; continue; }
+  out="$V/build/seedtest/$id.txt"
+  (cd "$V" && VP_REPO=$W VERIF_BUILD="$V/build/seedbuild" VERIF_VACUITY=0 python3 framework/check.py all > "$out" 2>&1)
+  viol=$(grep -o "VIOLATION property=C[0-9]*" "$out" | sort -u | sed 's/VIOLATION property=//' | tr '\n' ' ')
+  und=$(grep -o "^UNDECIDED[ :A-Z0-9]*" "$out" | sort -u | head -4 | tr '\n' ' ')
   echo "$id violations=[$viol] undecided=[$und]"
   cd "$W" && git checkout -q -- .
 done
+echo SEEDTEST-DONE
